@@ -1,11 +1,11 @@
 SPECIFICATION Spec
 CONSTANTS
-  Secs <- TSecs
-  Ticks <- TTicks
-  Grads <- TGrads
-  GTols <- TGTols
+  Secs <- WSecs
+  Ticks <- WTicks
+  Grads <- WGrads
+  GTols <- WGTols
   Norms <- QNorms
-  GScales <- QGScales
+  GScales <- XGScales
   MaxLen = 3
 INVARIANT LoggedIsVerdict
 INVARIANT GradHomogeneous
